@@ -94,18 +94,22 @@ Definition head_items (s : num_schema) : list nitem :=
   else if negb (truthy (eff_min s)) && negb (truthy (eff_max s))
   then [(None, DValid)] else [].
 
-(* coverage.py:610-626, multiple_of <> 0 *)
-Definition min_part (s : num_schema) : list nitem * list Z :=
+(* coverage.py:610-626, multiple_of <> 0.  zero_is_absent = false is the code since commit
+   0b606a31 (guard "maximum is None or larger <= maximum"); zero_is_absent = true is the guard
+   before the repair ("not maximum or ..."), kept as a regression sentinel *)
+Definition min_part_with (zero_is_absent : bool) (s : num_schema) : list nitem * list Z :=
   match eff_min s with
   | None => ([], [])
   | Some minimum =>
     let smallest := match n_mult s with Some m => closest_multiple_greater_than minimum m | None => minimum end in
     let larger := match n_mult s with Some m => smallest + m | None => minimum + 1 end in
     if negb (inb larger [smallest])
-       && (match eff_max s with None => true | Some M => (M =? 0) || (larger <=? M) end)
+       && (match eff_max s with None => true | Some M => (zero_is_absent && (M =? 0)) || (larger <=? M) end)
     then ([(Some smallest, DMinimum); (Some larger, DNear)], [larger; smallest])
     else ([(Some smallest, DMinimum)], [smallest])
   end.
+Definition min_part : num_schema -> list nitem * list Z := min_part_with false.
+Definition min_part_legacy : num_schema -> list nitem * list Z := min_part_with true.
 
 (* coverage.py:628-645, multiple_of <> 0 *)
 Definition max_part (s : num_schema) (seen : list Z) : list nitem :=
@@ -128,13 +132,16 @@ Definition max_part (s : num_schema) (seen : list Z) : list nitem :=
 Definition needs_draw (s : num_schema) : bool :=
   negb (truthy (n_example s) || truthy_list (n_examples s) || truthy (n_default s))
   && negb (truthy (eff_min s)) && negb (truthy (eff_max s)).
-Definition positive_number_plan (s : num_schema) (gen_ok : bool) : list nitem * outcome :=
+Definition positive_number_plan_with (zero_is_absent : bool) (s : num_schema) (gen_ok : bool) : list nitem * outcome :=
   let zero_mult := match n_mult s with Some m => m =? 0 | None => false end in
   let bounded := match eff_min s, eff_max s with None, None => false | _, _ => true end in
   if needs_draw s && negb gen_ok then ([], ForeignFailed)
   else if zero_mult && bounded then (head_items s, RaisesZeroDivision)
-  else let '(items, seen) := min_part s in
+  else let '(items, seen) := min_part_with zero_is_absent s in
        (head_items s ++ items ++ max_part s seen, Completed).
+Definition positive_number_plan : num_schema -> bool -> list nitem * outcome := positive_number_plan_with false.
+(* the planner before commit 0b606a31 (finding C03-F1, fixed) *)
+Definition positive_number_plan_legacy : num_schema -> bool -> list nitem * outcome := positive_number_plan_with true.
 
 (* JSON-Schema validity of an integer against the numeric keywords (draft 4
    boolean exclusives and draft 6+ numeric exclusives) *)
@@ -159,7 +166,8 @@ Definition numeric_exclusive (s : num_schema) : bool :=
 Definition exclusive_dominates (s : num_schema) : bool :=
   (match n_exmin s, n_min s with Some e, Some m => m <=? pyval e + 1 | _, _ => true end)
   && (match n_exmax s, n_max s with Some e, Some M => pyval e - 1 <=? M | _, _ => true end).
-(* F1: "not maximum" treats maximum 0 as absent *)
+(* F1 (fixed by 0b606a31): "not maximum" treated maximum 0 as absent.  No longer a hypothesis of
+   the theorem about positive_number_plan; it is the region of the legacy planner only *)
 Definition max_not_zero_with_min (s : num_schema) : bool :=
   match eff_min s, eff_max s with Some _, Some M => negb (M =? 0) | _, _ => true end.
 (* F3: the range holds a multiple (multipleOf absent = 1); multipleOf > 0 *)
